@@ -536,6 +536,20 @@ HANDLERS['numpy.reshape'] = lambda ip, st, a, kw, node: app('m:reshape', P(a[0])
 for _n, _op in (('greater', 'gt'), ('greater_equal', 'ge'), ('less', 'lt'), ('less_equal', 'le'), ('equal', 'eq'),
                 ('not_equal', 'ne')):
     HANDLERS['numpy.' + _n] = (lambda op: (lambda ip, st, a, kw, node: ip.compare(op, a[0], a[1])))(_op)
+def h_concatenate(ip, st, a, kw, node):
+    """concatenate((ravel(x), ravel(y))) is append(x, y)"""
+    seq = a[0] if a else None
+    if isinstance(seq, Tup) and len(seq) == 2 and not kw and len(a) == 1:
+        rs = []
+        for it in seq.items:
+            ia = it.single_atom() if isinstance(it, Poly) else None
+            rs.append(ia[2][0] if ia is not None and ia[0] == 'app' and ia[1] == 'm:ravel' and len(ia[2]) == 1 else None)
+        if all(r is not None for r in rs):
+            return app('append', rs[0], rs[1])
+    return h_generic('concatenate')(ip, st, a, kw, node)
+
+
+HANDLERS['numpy.concatenate'] = h_concatenate
 HANDLERS['numpy.where'] = h_where
 HANDLERS['numpy.flatnonzero'] = h_flatnonzero
 HANDLERS['numpy.einsum'] = h_einsum
